@@ -74,6 +74,11 @@ def gen_cfg(rng, kinds=ALL, ty=None, probe=True, nch=None, max_chunk=None, sinc_
             chunk = min(chunk, max_chunk)
         which = "probe" if probe else rng.choice(["auto", "scalar", "avx", "sse"])
         L = 8 * ((sinc_len + 7) // 8)
+        if probe and sinc_lens is None and rng.random() < 0.12:
+            # a user-implemented interpolator of arbitrary (also odd) length, through new_with_interpolator
+            which = "rprobe"
+            sinc_len = rng.choice([1, 2, 3, 5, 6, 7, 9, 11, 12, 20, 33])
+            L = sinc_len
         line = f"{ty} {kind} {hx(ratio)} {hx(maxrel)} {it} {sinc_len} {osf} {hx32(fcut)} {win} {chunk} {nch} {which}"
         return Cfg(kind, ty, nch, dict(ratio=ratio, maxrel=maxrel, interp=it, sinc_len=sinc_len, osf=osf,
                                        fcut=fcut, win=win, chunk=chunk, which=which), line,
